@@ -301,12 +301,15 @@ class ResourceScenario(ScenarioData):
 
         # If scoreboard shows a booking but there's available time, it's a partial slot
         # that was released - allow booking
-        if self.scoreboard[sb_idx] is not None and available_seconds < self.project.attributes.get(
-            "scheduleGranularity", 3600
+        if (
+            self.booked(sb_idx)
+            and available_seconds < self.project.attributes.get("scheduleGranularity", 3600)
         ):
-            # Partial slot available - allow it
+            # Partial slot of a finished task available - allow it
             pass
         elif self.scoreboard[sb_idx] is not None:
+            # Fully booked, or blocked by a leave / off-duty marker (a start offset
+            # recorded in slotSecondsUsed must not make a leave slot look partial)
             return False
 
         limits = self.property.get("limits", self.scenarioIdx)
